@@ -28,19 +28,33 @@ Oracle (differential; nothing is demanded that the property statement does not s
     An exception on exactly one side of a program outside (2) is no verdict ("whenever both return"); such programs are
     counted per exception class in coverage['one_sided'].
 
+    Tolerance details (all weakenings, listed in evidence `assumptions`): atol = rtol x the largest magnitude among the
+    sub-programs' results (cancellation); float32 RANGE counts as rounding (|x| > 3.4e38 against inf); a numbers-only
+    disagreement at a discontinuous operator (floor, comparisons, ^, %, index/take/drop) whose operand already differs
+    by rounding is no verdict; a complex result ((-3)^2.5 on Python scalars - identical on both sides) is outside the
+    universe of the property and is no verdict.
+
 Enumeration is level by level and simplest first.  A program is only extended when it is *clean* (both returned and
-agreed): an exception propagates to every enclosing program (nothing to compare) and a disagreement already fails the
-check, so larger programs around a failing one carry no information and would only multiply the same finding.
-Thorough level 3 additionally represents every clean sub-program by the first program of its *observational class*
-(whole-sub-tree-compilable flag + exact representation signature of both results: Python type, dtype, shape, strides,
-bytes).  That rests on both evaluators being compositional (the value of a sub-expression does not depend on its
-context); the assumption is measured on the complete level-2 product: programs whose children fall into the same
-classes must have the same outcome digest (`class_congruence_*` in coverage; a counterexample is a HarnessError).
+agreed) and numeric: an exception propagates to every enclosing program (nothing to compare), a disagreement already
+fails the check (larger programs around a failing one would only multiply the same finding), and :undefined (3%0 on
+both sides) is not a number.  Levels 0-2 are complete products.  Thorough level 3 applies every operator to ONE
+representative (first in enumeration order) per *representation class* of the clean 1- and 2-node programs
+(whole-sub-tree-compilable flag and, per backend: Python type, dtype, shape, contiguity, set of element classes
+sign x whole/fractional/nan/inf - the value tests in the code under test are any/all tests over exactly those
+predicates).  That is an abstraction, and its quality is measured on the complete level-2 product, not assumed:
+ * exact classes (type, dtype, shape, strides, bytes): contexts (operator, classes of the children) whose programs
+   have different outcome digests - `class_congruence_*` (40 of 71 k on the pinned tree: when the compiled form of a
+   whole expression raises, the interpreter also re-evaluates the root operator, so even exact sub-values do not fix
+   the outcome);
+ * representation classes: contexts with different verdicts - `representation_class_contexts_with_mixed_verdicts`.
 
 Interpreter reuse: one pair per worker.  Programs contain no assignment, every variable a case uses is re-bound from
 source before the case, the parse/compile caches are emptied every 256 cases (all program texts are distinct, so they
 are never hit by a program anyway) and the complete level <= 1 product is re-run with a brand-new pair per case and
 must give identical outcome digests (else HarnessError).
+
+torch is imported by run() in the parent and inherited through fork (no torch operation runs in the parent; workers
+call torch.set_num_threads(1) first); importing this module does not import torch.
 """
 import hashlib
 import json
@@ -319,12 +333,14 @@ def vclose(a, b, rtol, atol):
 
 
 def _pattern(x):
-    """Value abstraction used only to choose level-3 children: per element sign, wholeness, nan/inf."""
+    """Value abstraction used only to choose level-3 children: the SET of element classes (sign x whole/fractional,
+    nan, +-inf) that occur.  The value tests in the code under test are all of the any/all kind over exactly these
+    predicates ((b < 0).any(), trunc(r) == r for all, divisor == 0)."""
     a = np.asarray(x, dtype=float).ravel()
     with np.errstate(all='ignore'):
         code = (np.sign(a) + 1) + 3 * (a == np.trunc(a))
         code = np.where(np.isnan(a), 9, np.where(np.isinf(a), 10 + (a > 0), code))
-    return code.astype(np.uint8).tobytes()
+    return bytes(sorted(set(code.astype(np.uint8).tolist())))
 
 
 def asig(v):
@@ -343,6 +359,19 @@ def asig(v):
     if isinstance(v, (list, tuple)):
         return ('L', type(v).__name__, tuple(asig(x) for x in v))
     return fsig(v)
+
+
+def _has_complex(c):
+    if c[0] == 'l':
+        return any(_has_complex(e) for e in c[1])
+    return c[0] == 'obj' and c[1].startswith('complex')
+
+
+def _numeric(c):
+    """A number or a (possibly nested, possibly empty) list of numbers."""
+    if c[0] == 'l':
+        return all(_numeric(e) for e in c[1])
+    return c[0] in 'ir'
 
 
 def _skeleton(c):
@@ -485,6 +514,8 @@ def judge(t, on, ot):
     kmag = max([i[0] for i in kinfo if i] + [0.0])
     atol = RTOL * kmag
     a, b = cn(on[1]), cn(ot[1])
+    if _has_complex(a) or _has_complex(b):
+        return 'complex', None          # outside the property's universe (integers and reals); never extended
     if not vclose(a, b, RTOL, atol):
         dk = diff_kind(a, b)
         rootop = t[1] if not isinstance(t, str) else None
@@ -495,7 +526,7 @@ def judge(t, on, ot):
         return 'write', 'raises'
     if not texts_agree(on[2], ot[2], RTOL, atol):
         return 'write', 'text'
-    return 'clean', (max(kmag, _mag(a), _mag(b)), a == b)
+    return 'clean', (max(kmag, _mag(a), _mag(b)), a == b, _numeric(a) and _numeric(b))
 
 
 def outcome_digest(on, ot):
@@ -549,14 +580,21 @@ def classify(t, status, detail, on, ot):
     cluster (see the module report); symptoms that fit no rule are 'unclassified'."""
     root = t[1]
     if status == 'accept':
-        if on[0] == 'exc' and 'negative integer powers' in on[2]:
+        msgs = (on[2] if on[0] == 'exc' else '') + ' ' + (ot[2] if ot[0] == 'exc' else '')
+        if 'negative integer powers' in msgs:
             return 'numpy-int-array-negative-power-rejected'
+        if 'cannot convert float infinity to integer' in msgs:
+            return 'power-infinite-result-integer-conversion-raises'
+        if ot[0] == 'exc' and 'numpy.ndarray' in ot[2]:
+            return 'torch-power-scalar-base-returns-numpy-array'
         if on[0] == 'exc' and ot[0] == 'exc':
             return 'accept-both-reject:%s/%s' % (on[1], ot[1])
         return 'accept-numpy-rejects:' + on[1] if on[0] == 'exc' else 'accept-torch-rejects:' + ot[1]
-    if status == 'write':
-        return 'writer-' + str(detail)
     a, b = cn(on[1]), cn(ot[1])
+    if status == 'write':
+        if detail == 'text' and isinstance(on[1], np.ndarray) and on[1].dtype == object and _has_kind(a, 'r'):
+            return 'mixed-object-list-displays-integers-numpy-only'
+        return 'writer-' + str(detail)
     if root in ('+/', '*/', '-/', '%/'):
         return 'torch-over-folds-all-axes'
     if root in ('+\\', '*\\') and compilable(t) and detail == 'shape':
@@ -564,12 +602,16 @@ def classify(t, status, detail, on, ot):
     if root == '^':
         if detail == 'kind' and _has_kind(a, 'r') and not _has_kind(b, 'r'):
             return 'torch-compiled-power-negative-exponent-stays-integer'
+        if detail == 'kind' and not _has_kind(a, 'r') and _has_kind(b, 'r'):
+            return 'compiled-power-skips-integer-normalisation'
         if detail == 'value' and not _has_kind(a, 'r') and _mag(a) >= 2.0 ** 62:
             return 'power-int64-overflow'
-    if root == '%' and a == ('u',):
-        return 'torch-compiled-divide-by-zero-not-undefined'
+    if root == '%' and (a == ('u',) or b == ('u',)):
+        return 'compiled-divide-by-zero-not-undefined'
     if root == ',' and detail == 'kind':
         return 'join-empty-operand-kind'
+    if root == '@' and detail == 'shape':
+        return 'torch-index-by-numpy-0d-integer-returns-whole-list'
     return 'unclassified'
 
 
@@ -578,9 +620,23 @@ def classify(t, status, detail, on, ot):
 
 def new_out():
     return {'evaluations': 0, 'programs': 0, 'both_ok': 0, 'clean': 0, 'both_exc': 0, 'one_exc': 0, 'rounding': 0,
-            'nontrivial': 0, 'compilable_conforming': 0, 'exact': 0, 'by_nodes': {}, 'one_sided': {},
+            'nontrivial': 0, 'compilable_conforming': 0, 'exact': 0, 'clean_not_numeric': 0, 'complex': 0,
+            'complex_samples': [], 'by_nodes': {}, 'one_sided': {},
             'both_reject': {}, 'groups': {}, 'viol': [], 'samples': [], 'rounding_samples': [], 'classes': set(),
             'records': [], 'digests': [], 'fresh': []}
+
+
+def _ex_key(x):
+    s = x if isinstance(x, str) else x[0]
+    return (len(s), s)
+
+
+def _keep(lst, item, n):
+    """Keep the n smallest examples (shortest text first): the choice is independent of chunking and order of work."""
+    lst.append(item)
+    if len(lst) > n:
+        lst.sort(key=_ex_key)
+        del lst[n:]
 
 
 def run_case(env, t, out, want_records, fresh=False):
@@ -626,15 +682,17 @@ def run_case(env, t, out, want_records, fresh=False):
         out['digests'].append((t, outcome_digest(on, ot), status))
     if status == 'clean':
         out['clean'] += 1
-        mag, exact = detail
+        mag, exact, numeric = detail
         if exact:
             out['exact'] += 1
+        if not numeric:
+            out['clean_not_numeric'] += 1        # e.g. :undefined from a division by zero on both sides: never extended
         cls = _digest((compilable(t), fsig(on[1]), fsig(ot[1])))
         out['classes'].add(cls)
-        if want_records:
+        if want_records and numeric:
             out['records'].append((t, cls, mag, exact, _digest((compilable(t), asig(on[1]), asig(ot[1])))))
-        if len(out['samples']) < 4 and nodes(t) == 2 and not exact:
-            out['samples'].append([txt, show_obs(on), show_obs(ot), on[2], ot[2]])
+        if nodes(t) == 2 and not exact:
+            _keep(out['samples'], [txt, show_obs(on), show_obs(ot), on[2], ot[2]], 4)
         return
     if status in ('both_exc', 'one_exc'):
         out[status] += 1
@@ -645,13 +703,15 @@ def run_case(env, t, out, want_records, fresh=False):
             g = on[1] + '/' + ot[1]
             d = out['both_reject'].setdefault(g, {'n': 0, 'ex': []})
         d['n'] += 1
-        if len(d['ex']) < 3:
-            d['ex'].append(txt)
+        _keep(d['ex'], txt, 3)
         return
     if status == 'rounding':
         out['rounding'] += 1
-        if len(out['rounding_samples']) < 3:
-            out['rounding_samples'].append([txt, show_obs(on), show_obs(ot)])
+        _keep(out['rounding_samples'], [txt, show_obs(on), show_obs(ot)], 3)
+        return
+    if status == 'complex':
+        out['complex'] += 1
+        _keep(out['complex_samples'], txt, 3)
         return
     group = classify(t, status, detail, on, ot)
     out['groups'][group] = out['groups'].get(group, 0) + 1
@@ -708,19 +768,18 @@ def fan(cfg, items, want_records, total):
         part_records.extend(part.pop('records'))
         part_digests.extend(part.pop('digests'))
         fresh.extend(part.pop('fresh'))
-        for g, d in list(part['one_sided'].items()) + list(part['both_reject'].items()):
-            d['ex'] = sorted(d['ex'])
         os_, br = part.pop('one_sided'), part.pop('both_reject')
         for name, src in (('one_sided', os_), ('both_reject', br)):
             dst = total.setdefault(name, {})
             for g, d in src.items():
                 e = dst.setdefault(g, {'n': 0, 'ex': []})
                 e['n'] += d['n']
-                e['ex'] = sorted(set(e['ex']) | set(d['ex']), key=lambda s: (len(s), s))[:3]
-        samples = part.pop('samples')
-        rs = part.pop('rounding_samples')
-        total.setdefault('samples', []).extend(samples)
-        total.setdefault('rounding_samples', []).extend(rs)
+                e['ex'] = sorted(set(e['ex']) | set(d['ex']), key=_ex_key)[:3]
+        for name, n in (('samples', 8), ('rounding_samples', 5), ('complex_samples', 5)):
+            cur = total.setdefault(name, [])
+            cur.extend(part.pop(name))
+            cur.sort(key=_ex_key)
+            del cur[n:]
         runner.merge_counts(total, part)
     return part_records, part_digests, fresh
 
@@ -776,7 +835,7 @@ def run(cfg):
             seen, differ = {}, {}
             for t, d, st in digs2:
                 key = (t[1], rec[t[2]][col]) if t[0] == 'u' else (t[1], rec[t[2]][col], rec[t[3]][col])
-                val = d if col == 0 else (st in ('clean', 'both_exc', 'one_exc', 'rounding'))
+                val = d if col == 0 else (st in ('clean', 'both_exc', 'one_exc', 'rounding', 'complex'))
                 if key in seen:
                     if seen[key][1] != val:
                         differ.setdefault(key, (text(seen[key][0]), text(t)))
@@ -831,7 +890,7 @@ def run(cfg):
     for v in total.get('viol', []):
         v['case']['tree'] = json.loads(json.dumps(v['case']['tree']))
     rep.extend_violations(total.get('viol', []))
-    samples = sorted(total.get('samples', []), key=lambda s: (len(s[0]), s[0]))[:8]
+    samples = total.get('samples', [])
     cov = {
         'evaluations': total.get('evaluations', 0),
         'programs': total.get('programs', 0),
@@ -843,7 +902,10 @@ def run(cfg):
         'one_raised_no_verdict': total.get('one_exc', 0),
         'compiler_grammar_conforming_programs': total.get('compilable_conforming', 0),
         'rounding_through_discontinuity_no_verdict': total.get('rounding', 0),
-        'rounding_samples': sorted(total.get('rounding_samples', []))[:5],
+        'rounding_samples': total.get('rounding_samples', []),
+        'complex_result_no_verdict': total.get('complex', 0),
+        'complex_samples': total.get('complex_samples', []),
+        'agreeing_but_not_numeric_not_extended': total.get('clean_not_numeric', 0),
         'distinct_nontrivial': total.get('nontrivial', 0),
         'distinct_outcomes': len(total.get('classes', ())),
         'one_sided': {g: total['one_sided'][g] for g in sorted(total.get('one_sided', {}))},
@@ -854,11 +916,81 @@ def run(cfg):
         'samples': samples,
         'exhaustive': True,
         'timings_s': timings,
-        'rule': '',
+        'rule': 'programs = operator trees over 14 dyads (+ - * % ^ < > = & | , @ # _) and 18 monadic forms (negate, floor, '
+                'reverse, {x*x}\', 6 overs, 5 scans, @0, @[1 0], 1_) with leaves a..g (3, -2, 2.5, [1 2 3], [1.5 -2.5 3.0], '
+                '[[1 2] [3 4]], [[1.5 2] [3 4]]); complete for 0, 1 and 2 operator nodes over children that agreed and '
+                'are numeric (a program with a raising / disagreeing / :undefined / complex sub-program is not built: '
+                'pruned_level2_programs_with_unclean_child)'
+                + ('' if cfg.quick else '; 3 operator nodes: every operator over one representative (first in '
+                   'enumeration order) per representation class of the agreeing 1- and 2-node programs (compilable flag, '
+                   'and per backend Python type, dtype, shape, contiguity, set of element classes sign x whole/fractional '
+                   '/nan/inf), child splits (2) (2,0) (0,2) (1,1)')
+                + '. evaluations = program evaluations (each program once per backend). distinct_nontrivial = programs '
+                '(pairwise distinct: every text is checked to parse back to its tree) for which both backends returned, '
+                'so the oracle was applied, and that use at least one leaf other than the integer scalars a, b (whose '
+                'arithmetic never reaches a backend array). distinct_outcomes = distinct exact result representations '
+                '(both backends) among agreeing programs.',
     }
     cov.update(cov_extra)
     rep.coverage = cov
+    rep.assumptions = [
+        'differential oracle only: a defect both backends share is invisible here (C01/C02/C05 compare with the reference)',
+        'torch backend on the CPU device, torch.set_num_threads(1); MPS/CUDA dtype rules (float32 everywhere) not covered',
+        'tolerance: rtol %g on elements and on numeric tokens of the written text, atol = rtol x largest magnitude among '
+        'the results of the sub-programs (cancellation), float32 range (|x| > 3.4e38 vs inf, |x| < 1.2e-38 vs 0) counts '
+        'as single-precision rounding' % RTOL,
+        'a disagreement in the numbers only, at a discontinuous operator (floor, < > =, ^, %, @ # _) one of whose operands '
+        'already differs by rounding between the backends, is no verdict (rounding_through_discontinuity_no_verdict)',
+        'obligation 2 (acceptance) is applied to programs of the compiler grammar whose operands conform in shape and '
+        'whose sub-programs are numeric; the statement read literally would also demand acceptance of [1 2 3]+[[1 2] [3 4]]',
+        'a one-sided exception outside obligation 2 is no verdict ("whenever both return"): see one_sided',
+        'complex results ((-3)^2.5 on Python scalars, identical on both sides) are outside the universe: no verdict, not extended',
+        'values.norm promotes integers inside a numeric block that contains a real (DESIGN 2.4) before values are compared; '
+        'the written texts are compared without that promotion',
+        'interpreter pair reused per worker: variables re-bound from source before every case, caches emptied every 256 '
+        'cases, complete <=1-node product cross-checked against a brand-new pair per case',
+    ] + ([] if cfg.quick else [
+        'level 3 is exhaustive over operators x representation classes of the children, not over all value combinations; '
+        'on the complete level-2 product %d of %d (operator, child classes) contexts contain programs with different '
+        'verdicts (representation_class_contexts_with_mixed_verdicts)'
+        % (cov_extra.get('representation_class_contexts_with_mixed_verdicts', -1),
+           cov_extra.get('representation_class_contexts', -1))])
     return rep
+
+
+def selftest():
+    """The harness's own small models against example tables (no torch needed)."""
+    T = [(('u', 'neg', 'a'), '-a'), (('u', '+/', ('u', 'rev', 'd')), '+/|d'), (('u', '*\\', ('u', '*/', 'f')), '*\\(*/f)'),
+         (('b', '-', ('b', '+', 'a', 'b'), ('u', 'neg', 'c')), '(a+b)--c'), (('u', '@[1 0]', ('u', 'floor', 'e')), '(_e)@[1 0]'),
+         (('u', '1_', ('b', ',', 'd', 'e')), '1_d,e'), (('u', "sq'", ('u', '@0', 'f')), "{x*x}'f@0"),
+         (('b', '_', 'b', ('b', '#', 'a', 'd')), 'b_a#d')]
+    k = KlongInterpreter()
+    for t, s in T:
+        assert text(t) == s, (t, text(t), s)
+        p = k.prog(s)[1]
+        assert len(p) == 1 and ast_tree(p[0]) == t, (s, ast_tree(p[0]))
+    S = [('d', (3,)), (('b', '+', 'd', 'e'), (3,)), (('b', '+', 'd', 'f'), None), (('u', '+/', 'f'), (2,)),
+         (('b', '*', ('u', '+/', 'f'), 'g'), (2, 2)), (('b', '<', ('u', '+/', 'f'), 'd'), None), (('u', '+\\', 'g'), (2, 2)),
+         (('u', '|/', 'd'), ()), (('b', '^', 'a', ('u', 'neg', 'f')), (2, 2))]
+    for t, s in S:
+        assert shape_of(t) == s, (t, shape_of(t), s)
+    assert compilable(('b', '^', 'a', ('u', '&\\', 'd'))) and not compilable(('u', '-/', 'd')) \
+        and not compilable(('b', '&', 'a', 'b')) and not compilable(('u', 'floor', 'c'))
+    W = [('[1 2]', '[1 2]', True), ('[1 2]', '[1.0 2.0]', False), ('0.16666666666666666', '0.1666666716337204', True),
+         ('[1 3 6 10]', '[[1 2] [4 6]]', False), ('[3.0 1.39e+122]', '[3.0 inf]', True), (':undefined', 'inf', False),
+         ('[0.5 -2.5]', '[0.5 -2.6]', False), ('7', '8', False), ('[1 2 3 1.5]', '[1.0 2.0 3.0 1.5]', False),
+         ('-0.3333333333333333', '-0.3333333432674408', True), ('1e-07', '1.00000001e-07', True)]
+    for a, b, want in W:
+        assert texts_agree(a, b, RTOL, 0.0) == want, (a, b, want)
+    V = [(('r', 1.0), ('r', 1.000001), True), (('r', 1.0), ('r', 1.0001), False), (('i', 1), ('r', 1.0), False),
+         (('r', float('nan')), ('r', float('nan')), True), (('r', 1e39), ('r', float('inf')), True),
+         (('r', 1e30), ('r', float('inf')), False), (('r', float('inf')), ('r', 1e39), False),
+         (('l', (('i', 1),)), ('l', (('i', 1), ('i', 2))), False), (('u',), ('r', float('inf')), False)]
+    for a, b, want in V:
+        assert vclose(a, b, RTOL, 0.0) == want, (a, b, want)
+    assert diff_kind(('l', (('i', 1),)), ('i', 1)) == 'shape' and diff_kind(('i', 1), ('r', 1.0)) == 'kind' \
+        and diff_kind(('r', 1.0), ('r', 2.0)) == 'value'
+    return '%d text/parse, %d shape, %d written-text, %d value examples' % (len(T), len(S), len(W), len(V))
 
 
 def replay(cfg, path):
